@@ -22,7 +22,7 @@ META = {
     "assumptions": [],
 }
 
-STATUSES = [100, 101, 101, 101, 101, 200, 204, 300, 304, 400, 401, 403, 404, 426, 500, 503, 999]
+STATUSES = [100, 101, 101, 101, 101, 200, 204, 300, 304, 400, 401, 403, 404, 426, 500, 503, 999, "1015", "1010", "101x", "0101", "101.0", "10", "1101", "102", "103"]
 UPGRADE = [("websocket", True), ("WebSocket", True), ("websocket, foo", True), ("foo,websocket", True), ("  websocket  ", True),
            ("h2c", False), ("websockets", False), ("web socket", False), (None, False), ("", False)]
 CONNECTION = [("Upgrade", True), ("upgrade", True), ("keep-alive, Upgrade", True), ("UPGRADE,keep-alive", True),
@@ -35,6 +35,17 @@ def rand_case(rng, s):
 
 
 def build_response(rng, d, key, prev_key):
+    if d.get("interim"):
+        # the interim head carries everything a valid upgrade needs; the final 101 head then depends on the variant
+        right = H.accept_for(key)
+        ist = d.get("interim_status", 100)
+        interim = (f"HTTP/1.1 {ist} Continue\r\nUpgrade: websocket\r\nConnection: Upgrade\r\nSec-WebSocket-Accept: {right}\r\n"
+                   + (f"Sec-WebSocket-Protocol: {d['offered'][0]}\r\n" if d.get("offered") else "") + "\r\n").encode()
+        if d["interim"] == "carries-the-headers":
+            return interim + b"HTTP/1.1 101 Switching Protocols\r\n\r\n"
+        d2 = dict(d)
+        d2["interim"] = None
+        return interim + build_response(rng, d2, key, prev_key)
     lines = [f"HTTP/1.1 {d['status']} {d.get('reason', 'X')}"]
     hn = (lambda s: rand_case(rng, s)) if d.get("name_case") else (lambda s: s)
     hdrs = []
@@ -77,7 +88,13 @@ def build_response(rng, d, key, prev_key):
 def verdict(d):
     """'accept' | 'reject' | 'unjudged' for a final (non-redirect) response"""
     if d["status"] != 101:
+        if isinstance(d["status"], str) and d["status"].strip().isdigit() and int(d["status"]) == 101:
+            return "unjudged"  # not a 3-digit status-code, but numerically 101: the statement does not say
         return "reject"
+    if d.get("interim"):
+        # an interim 1xx head in front of the final one: only the final head counts.  If the final head is itself
+        # complete either outcome is acceptable here (the library may refuse interim responses altogether).
+        return "reject" if d["interim"] == "carries-the-headers" else "unjudged"
     up = d["upgrade"]
     if up is None or "websocket" not in [t.strip().lower() for t in up.split(",")]:
         return "reject"
@@ -200,6 +217,9 @@ def head_case(res, W, rng):
         "dup": rng.random() < 0.2,
         "shuffle": rng.random() < 0.3,
     }
+    if rng.random() < 0.06:
+        d.update(status=101, upgrade="websocket", connection="Upgrade", accept="right", selected=("chat" if off else None),
+                 interim=rng.choice(["carries-the-headers", "carries-the-headers", "then-complete-final"]), interim_status=rng.choice([100, 102, 103]))
     # bias towards near-valid responses: one deviation from canonical
     if rng.random() < 0.55:
         base = {"status": 101, "upgrade": "websocket", "connection": "Upgrade", "accept": "right", "offered": off,
@@ -207,6 +227,8 @@ def head_case(res, W, rng):
         k = rng.choice(["status", "upgrade", "connection", "accept", "selected", "name_case", "none"])
         if k != "none":
             base[k] = d[k]
+        if d.get("interim"):
+            base = d
         d = base
     keys = []
 
